@@ -173,6 +173,23 @@ func suiteSen(tier string, seed uint64, model string) *Report {
 			trees = append(trees, []any{a + b}, map[string]any{a + b: int64(1)})
 		}
 	}
+	// lists of small maps (the table layout of pretty's align option) whose keys mix bare and
+	// quoted spellings
+	tkeys := []string{"age", "full name", "a", "b c", "z", "0k", "k:", "-x", "id", "\u00e9"}
+	for i := 0; i < 60; i++ {
+		rows := make([]any, 2+r.Intn(3))
+		ks := []string{tkeys[r.Intn(len(tkeys))], tkeys[r.Intn(len(tkeys))], tkeys[r.Intn(len(tkeys))]}
+		for j := range rows {
+			m := map[string]any{}
+			for _, k := range ks {
+				if r.Chance(80) {
+					m[k] = int64(r.Intn(100))
+				}
+			}
+			rows[j] = m
+		}
+		trees = append(trees, rows, map[string]any{"t": rows})
+	}
 	fixedN := len(trees)
 	for i := 0; i < n; i++ {
 		trees = append(trees, genSenTree(r, 1+r.Intn(4)))
@@ -226,7 +243,7 @@ func suiteSen(tier string, seed uint64, model string) *Report {
 		}
 		writers := []wv{{"sen.String", nil, false}, {"sen.Bytes", nil, false}, {"sen.Write", nil, false}}
 		if i%3 == 0 || i < fixedN {
-			writers = append(writers, wv{"pretty.SEN", 80.3, false}, wv{"pretty.SEN", 20.2, true}, wv{"pretty.WriteSEN", 40.1, i%2 == 0})
+			writers = append(writers, wv{"pretty.SEN", 80.3, false}, wv{"pretty.SEN", 20.2, true}, wv{"pretty.SEN", 80.3, true}, wv{"pretty.WriteSEN", 40.1, i%2 == 0})
 		}
 		for _, w := range writers {
 			rep.Evaluations++
@@ -251,6 +268,6 @@ func suiteSen(tier string, seed uint64, model string) *Report {
 		}
 	}
 	rep.Distinct = len(distinct)
-	rep.Rule = "every special spelling (reserved words, number/sign-like, operators, comments, 64/65-byte tokens) as value, key and array element; all strings of length <= 2 over a 54-piece alphabet (delimiters, quotes, comment markers, control, non-ASCII, invalid UTF-8) as value and as key; seeded trees x random options; sen.String/Bytes/Write and pretty.SEN/WriteSEN, each text parsed back with sen.Parse and compared with the expected tree (omitted members removed, invalid UTF-8 replaced); a failure is attributed to the recorded class only if the same tree with exactly those strings defused round-trips; non-trivial = distinct trees"
+	rep.Rule = "every special spelling (reserved words, number/sign-like, operators, comments, 64/65-byte tokens) as value, key and array element; all strings of length <= 2 over a 54-piece alphabet (delimiters, quotes, comment markers, control, non-ASCII, invalid UTF-8) as value and as key; lists of small maps with mixed bare/quoted keys (align tables); seeded trees x random options; sen.String/Bytes/Write and pretty.SEN/WriteSEN, each text parsed back with sen.Parse and compared with the expected tree (omitted members removed, invalid UTF-8 replaced); a failure is attributed to the recorded class only if the same tree with exactly those strings defused round-trips; non-trivial = distinct trees"
 	return rep
 }
